@@ -330,6 +330,92 @@ class T(Entity):
         Sub(a=self.a[0], y=self.y[0])
         Sub(a=self.a[1], y=self.y[1])
 ''',
+    "extern-entity-other-library": HDR + '''
+class Ext(Entity, extern=True, attributes={"path": "mylib"}):
+    a = Port.input(Bit)
+    y = Port.output(Bit)
+class Ext2(Entity, extern=True, attributes={"path": "otherlib"}):
+    a = Port.input(Bit)
+    y = Port.output(Bit)
+class T(Entity):
+    a = Port.input(Bit)
+    y = Port.output(Bit)
+    z = Port.output(Bit)
+    def architecture(self):
+        Ext(a=self.a, y=self.y)
+        Ext2(a=self.a, y=self.z)
+''',
+    "match-duplicate-patterns": HDR + '''
+class T(Entity):
+    x = Port.input(Unsigned[2])
+    b = Port.input(BitVector[2])
+    o = Port.output(Unsigned[2])
+    p = Port.output(Unsigned[2])
+    def architecture(self):
+        @std.sequential
+        def proc():
+            match self.x:
+                case 0:
+                    self.o <<= 1
+                case 1:
+                    self.o <<= 2
+                case 0:
+                    self.o <<= 3
+                case _:
+                    self.o <<= 0
+            match self.b:
+                case "01":
+                    self.p <<= 1
+                case "01":
+                    self.p <<= 2
+                case _:
+                    self.p <<= 0
+''',
+    "select-duplicate-keys": HDR + '''
+class T(Entity):
+    b = Port.input(BitVector[2])
+    o = Port.output(Unsigned[2])
+    p = Port.output(Unsigned[2])
+    def architecture(self):
+        @std.concurrent
+        def logic():
+            self.o <<= cohdl.select_with(self.b, {"00": Unsigned[2](1), BitVector[2]("00"): Unsigned[2](2), "11": Unsigned[2](3)}, default=Unsigned[2](0))
+        @std.sequential
+        def proc():
+            self.p <<= cohdl.select_with(self.b, {"00": Unsigned[2](1), BitVector[2]("00"): Unsigned[2](2), "11": Unsigned[2](3)}, default=Unsigned[2](0))
+''',
+    "array-element-selector": HDR.replace("enum", "enum, Array") + '''
+class T(Entity):
+    i = Port.input(Unsigned[1])
+    d = Port.input(Unsigned[2])
+    o = Port.output(Unsigned[2])
+    p = Port.output(Unsigned[2])
+    q = Port.output(Signed[2])
+    def architecture(self):
+        arr = Signal[Array[Unsigned[2], 2]](name="arr")
+        ars = Signal[Array[Signed[2], 2]](name="ars")
+        @std.concurrent
+        def logic():
+            arr[0] <<= self.d
+            arr[1] <<= self.d + 1
+            ars[0] <<= self.d.signed
+            ars[1] <<= self.d.signed
+            self.o <<= cohdl.select_with(arr[1], {0: Unsigned[2](1), 1: Unsigned[2](2)}, default=Unsigned[2](0))
+        @std.sequential
+        def proc():
+            match arr[self.i]:
+                case 0:
+                    self.p <<= 1
+                case 3:
+                    self.p <<= 2
+                case _:
+                    self.p <<= 0
+            match ars[0]:
+                case -1:
+                    self.q <<= 1
+                case _:
+                    self.q <<= 0
+''',
 }
 
 
